@@ -183,42 +183,63 @@ _LEAVES = ('param', 'glob', 'ev', 'lv', 'after', 'tv', 'item', 'excobj', 'import
 
 
 def roots(v, acc=None, memo=None):
-    """Leaves a value is built from: the objects a heap read of it looks at."""
+    """Access paths a value is built from: (leaf,), (leaf, 'attr'), (leaf, 'attr', '[]') ...  A heap read looks at its
+    path; an event may change what lies on, or below, the paths of the objects handed to it."""
     if acc is None:
-        acc, memo = set(), set()
-    if not isinstance(v, tuple) or not v or id(v) in memo:
-        return acc
-    memo.add(id(v))
+        acc = set()
+    acc.update(_paths(v, {}))
+    return acc
+
+
+def _paths(v, memo):
+    if not isinstance(v, tuple) or not v:
+        return frozenset()
+    k = id(v)
+    if k in memo:
+        return memo[k][1]
+    memo[k] = (v, frozenset())
     t = v[0]
     if t in ('param', 'glob'):
-        acc.add(v)
-        return acc
-    if t == 'ev':
-        acc.add(('ev', id(v[1])))
-        return acc
-    if t in ('lv', 'after', 'tv'):
-        acc.add((t, id(v[1]), v[2]))
-        return acc
-    if t == 'item':
-        acc.add(('item', id(v[1])))
-        roots(v[1].head, acc, memo)      # an item belongs to what is iterated
-        return acc
-    if t == 'excobj':
-        acc.add(('excobj', id(v[1]), v[2]))
-        return acc
-    if t == 'ver':
-        return acc
-    for x in v[1:] if isinstance(t, str) else v:
-        if isinstance(x, tuple):
-            roots(x, acc, memo)
-    return acc
+        r = frozenset([(v,)])
+    elif t == 'ev':
+        r = frozenset([(('ev', id(v[1])),)])
+    elif t in ('lv', 'after', 'tv'):
+        r = frozenset([((t, id(v[1]), v[2]),)])
+    elif t == 'item':
+        r = frozenset([(('item', id(v[1])),)]) | frozenset(p_ + ('[]',) for p_ in _paths(v[1].head, memo))
+    elif t == 'excobj':
+        r = frozenset([(('excobj', id(v[1]), v[2]),)])
+    elif t == 'ver' or t == 'const':
+        r = frozenset()
+    elif t in ('attr', 'meth'):
+        base = _paths(v[1], memo)
+        r = frozenset(p_ + (v[2],) for p_ in base) if t == 'attr' else base
+    elif t == 'sub':
+        base = _paths(v[1], memo)
+        r = frozenset(p_ + ('[]',) for p_ in base) | _paths(v[2], memo)
+    else:
+        acc = set()
+        for x in (v[1:] if isinstance(t, str) else v):
+            if isinstance(x, tuple):
+                acc |= _paths(x, memo)
+        r = frozenset(acc)
+    memo[k] = (v, r)
+    return r
+
+
+def _related(p, q):
+    n = min(len(p), len(q))
+    return p[:n] == q[:n]
 
 
 def version_in(hist, rts):
     """Version of a heap read of something built from the roots `rts`: the last event that may have changed it."""
     for token, touched in reversed(hist):
-        if touched is None or (touched & rts):
+        if touched is None:
             return token
+        if touched and rts:
+            if touched & rts or any(_related(p_, q_) for p_ in rts for q_ in touched):
+                return token
     return hist[0][0]
 
 
@@ -235,15 +256,8 @@ def rebase(v, hf, ht, memo=None):
     t = v[0]
     if t in ('attr', 'sub', 'pure', 'comp') and isinstance(v[-1], tuple) and v[-1] and v[-1][0] == 'ver':
         kids = tuple(rebase(x, hf, ht, memo) for x in v[1:-1])
-        old_kids = v[1:-1]
-        r0 = set()
-        for x in old_kids:
-            roots(x, r0, set())
-        if v[-1] == version_in(hf, r0):
-            r1 = set()
-            for x in kids:
-                roots(x, r1, set())
-            r = (t,) + kids + (version_in(ht, r1),)
+        if v[-1] == version_in(hf, _paths(v[:-1], {})):
+            r = (t,) + kids + (version_in(ht, _paths((t,) + kids, {})),)
         else:
             r = (t,) + kids + (v[-1],)
     elif t in ('ev', 'ver', 'const', 'glob', 'param', 'lv', 'after', 'tv', 'item', 'excobj'):
@@ -506,14 +520,14 @@ class Exec(object):
             return ('glob', e.id)
         if isinstance(e, ast.Attribute):
             b = self.ev(e.value, st, out)
-            return self.lift(lambda x: ('attr', x, e.attr, self.vfor(st, x)), b)
+            return self.lift(lambda x: ('attr', x, e.attr, self.vfor(st, ('attr', x, e.attr))), b)
         if isinstance(e, ast.Subscript):
             b = self.ev(e.value, st, out)
             i = self.ev_slice(e.slice, st, out)
             k = _intconst(i)
             if b[0] == 'tuple' and k is not None and 0 <= k < len(b) - 1 and not any(x[0] == 'star' for x in b[1:]):
                 return b[1 + k]
-            return self.lift(lambda x, y: ('sub', x, y, self.vfor(st, x, y)), b, i)
+            return self.lift(lambda x, y: ('sub', x, y, self.vfor(st, ('sub', x, y))), b, i)
         if isinstance(e, ast.Tuple) or isinstance(e, ast.List):
             items = []
             for x in e.elts:
@@ -940,13 +954,13 @@ class Exec(object):
                     self.bind(t, ('ibin', type(s.op).__name__, cur, v), st, seq)
             elif isinstance(t, ast.Attribute):
                 b = self.ev(t.value, st, seq)
-                cur = ('attr', b, t.attr, self.vfor(st, b))
+                cur = ('attr', b, t.attr, self.vfor(st, ('attr', b, t.attr)))
                 v = self.ev(s.value, st, seq)
                 self.emit(Event('setattr', [b, ('const', repr(t.attr)), ('ibin', type(s.op).__name__, cur, v)]), st, seq)
             elif isinstance(t, ast.Subscript):
                 b = self.ev(t.value, st, seq)
                 i = self.ev_slice(t.slice, st, seq)
-                cur = ('sub', b, i, self.vfor(st, b, i))
+                cur = ('sub', b, i, self.vfor(st, ('sub', b, i)))
                 v = self.ev(s.value, st, seq)
                 self.emit(Event('setitem', [b, i, ('ibin', type(s.op).__name__, cur, v)]), st, seq)
             else:
